@@ -12,7 +12,8 @@ def run(report, tier):
         "these runs are solver-selected but concrete: pandas / numpy / plumbum cannot be traced, so there is no symbolic data",
         "the Python output is compiled and executed against a recording stand-in for the goofit module (every GooFit name the generator "
         "may use is pre-defined there, nothing else)",
-        "the command-line entry point (plumbum application, a subprocess) is not covered",
+        "the command-line entry point is run as a subprocess (same PYTHONHASHSEED) for every ninth file and the shipped model; its output "
+        "must be the text of the function call",
         "the shipped model does not define the four K-matrix scalars sA_0, sA, s0_prod, s0_scatt: for it they count as supplied from outside",
         "outputs are compared after removing the timestamp line",
     ]
